@@ -855,12 +855,27 @@ def _reads_cancelled_variable(code):
     return False
 
 
+def _has_noop_branch(code):
+    """an IF branch that assigns a variable to itself (IF (..W..) TVCL = TVCL): like an empty branch it has no
+    representation in the parsed statements, so the symbols of its condition live in the kept text only"""
+    for s_ in code or []:
+        if s_[0] == 'if':
+            bodies = [b for _, b in s_[1]] + ([s_[2]] if s_[2] is not None else [])
+            for b in bodies:
+                for x in b:
+                    if x[0] == 'asg' and tuple(x[2][:2]) == ('var', x[1]):
+                        return True
+                if _has_noop_branch(b):
+                    return True
+    return False
+
+
 def _pred_generated_empty_branch(spec):
     from . import c01
 
     try:
         code = c01.build(spec['prog']).pred
-        return _has_empty_branch(code) or _reads_cancelled_variable(code)
+        return _has_empty_branch(code) or _has_noop_branch(code) or _reads_cancelled_variable(code)
     except Exception:
         return False
 
